@@ -127,6 +127,9 @@ impl CoreDID {
 
   /// Set the method name of the [`DID`].
   pub fn set_method_name(&mut self, value: impl AsRef<str>) -> Result<(), Error> {
+    if value.as_ref().is_empty() {
+      return Err(Error::InvalidMethodName);
+    }
     Self::valid_method_name(value.as_ref())?;
     self.0.set_method(value);
     Ok(())
@@ -142,6 +145,9 @@ impl CoreDID {
 
   /// Set the method-specific-id of the [`DID`].
   pub fn set_method_id(&mut self, value: impl AsRef<str>) -> Result<(), Error> {
+    if value.as_ref().is_empty() {
+      return Err(Error::InvalidMethodId);
+    }
     Self::valid_method_id(value.as_ref())?;
     self.0.set_method_id(value);
     Ok(())
